@@ -50,12 +50,19 @@ type Case struct {
 	H      hgen.History `json:"h"`
 	Batch  int          `json:"batch"`
 	Faults []Fault      `json:"faults"`
+	// Net: the server sits behind a real grpc.Server over bufconn and the client side is real
+	// gRPC: half-close = CloseSend, cancel = context cancellation (RST_STREAM), recv-error = the
+	// client's connection is closed, cancel-unread = the client stops reading responses, sends
+	// everything, then cancels; flow-control (Flood > 0) = the client stops reading and keeps
+	// sending until the server's writer is blocked by HTTP/2 flow control, then goes away.
+	Net   bool `json:"net,omitempty"`
+	Flood int  `json:"flood,omitempty"`
 }
 
 func setup() {
 	c := ev.C()
-	c.Rule = "scripts (negotiate, elect, batches of generated operations; Gets over the resulting contents) x every cut point (after each message sent, after each response read, at the K-th response of a batch) x termination mode {half-close, context cancel, transport error on the server's Recv, transport error on the server's Send, client stops reading then cancels}; Get abandoned after each received response 0..n; sequences of 1-3 such faults. For every generated script all single-fault (cut, mode) pairs are enumerated, plus rapid-drawn multi-fault sequences. Oracle after every fault, once the RPC has ended and its goroutines are parked (goroutine-state quiescence): entries read through a fresh Get equal the belief-model state after SOME prefix of the sent operations that includes every acknowledged one; the highest learnt election id equals the maximum announced in the delivered messages; then a probe session (negotiate, win the election, one ADD, Get, Flush of one instance) must complete under the watchdog; a hang is classified from the goroutine dump. Non-trivial = a cut at the K-th response inside a batch, or inside a Get stream with entries remaining; distinct by FNV-64 of the case JSON."
-	c.Assumptions = []string{"servers run with forward references disallowed so that the belief model is deterministic for unanswered operations", "transport failures are emulated at the stream interface (exact cut points)"}
+	c.Rule = "scripts (negotiate, elect, batches of generated operations; Gets over the resulting contents) x every cut point (after each message sent, after each response read, at the K-th response of a batch) x termination mode {half-close, context cancel, transport error on the server's Recv, transport error on the server's Send, client stops reading then cancels}; Get abandoned after each received response 0..n; sequences of 1-3 such faults; plus the same scripts against the server behind a real grpc.Server over bufconn (CloseSend, context cancellation, connection teardown, client that never reads then cancels, abandoned Get stream, and a flood that stalls the server's writer in HTTP/2 flow control before the client goes away). For every generated script all single-fault (cut, mode) pairs are enumerated, plus rapid-drawn multi-fault sequences. Oracle after every fault, once the RPC has ended and its goroutines are parked (goroutine-state quiescence): entries read through a fresh Get equal the belief-model state after SOME prefix of the sent operations that includes every acknowledged one; the highest learnt election id equals the maximum announced in the delivered messages; then a probe session (negotiate, win the election, one ADD, Get, Flush of one instance) must complete under the watchdog; a hang is classified from the goroutine dump. Non-trivial = a cut at the K-th response inside a batch, or inside a Get stream with entries remaining; distinct by FNV-64 of the case JSON."
+	c.Assumptions = []string{"servers run with forward references disallowed so that the belief model is deterministic for unanswered operations", "transport failures are emulated at the stream interface (exact cut points); the real-transport class uses grpc over an in-memory bufconn listener (no kernel TCP)"}
 }
 
 type runner struct {
@@ -228,6 +235,8 @@ func (r *runner) modifyFault(fi int, f Fault) bool {
 		if k >= 1 {
 			x.BlockSends(k)
 		}
+	case "cancel-unread":
+		x.PauseReads()
 	}
 	delivered := 0
 	for i := 0; i < cut; i++ {
@@ -304,6 +313,16 @@ func (r *runner) modifyFault(fi int, f Fault) bool {
 		if !f.Read {
 			countAcked()
 		}
+	case "cancel-unread":
+		// real transport: nothing was read; the server works through what it received at its
+		// own pace and may be anywhere when the cancellation arrives
+		r.inside = r.inside || delivered > 2
+		x.Cancel()
+		if _, _, hg := x.WaitEnd(); hg != nil {
+			l2.HangFinding(r.v, "C10", hg)
+			return false
+		}
+		countAcked()
 	case "cancel-blocked":
 		if k >= 1 {
 			blocked, hg := x.WaitBlocked()
@@ -350,6 +369,70 @@ func (r *runner) modifyFault(fi int, f Fault) bool {
 	return true
 }
 
+// floodFault (real transport only): the client stops reading, floods the stream with cheap
+// operations (unknown network instance: answered FAILED before any RIB code) until the
+// server's writer is parked in HTTP/2 flow control, then sends NBatches real requests - which
+// the server cannot have read yet - and goes away (cancel or connection close).
+func (r *runner) floodFault(fi int, f Fault) bool {
+	when := fmt.Sprintf("fault %d (%+v)", fi, f)
+	x := r.s.Open()
+	id := gen.ID128{Hi: 0, Lo: uint64(r.round*10 + 1)}
+	x.Send(drive.StdParams(false))
+	x.Send(&spb.ModifyRequest{ElectionId: id.Proto()})
+	if rs, ended, hg := x.Barrier(); hg != nil || ended || len(rs) != 2 {
+		l2.HangFinding(r.v, "C10", hg)
+		if hg == nil {
+			r.fail("setup", "%s: session setup: ended=%v %v", when, ended, rs)
+		}
+		return false
+	}
+	r.announce(id)
+	x.PauseReads()
+	junk := &spb.ModifyRequest{}
+	for i := 0; i < r.c.Flood; i++ {
+		o := &gen.Op{ID: uint64(1<<40 + i), NI: drive.BarrierNI, Kind: gen.NH, Act: gen.ADD, Key: "1", IP: "192.0.2.1", Elec: &id}
+		junk.Operation = append(junk.Operation, o.Proto())
+	}
+	blocked := false
+	deadline := time.Now().Add(drive.Watchdog)
+	for n := 0; n < 400 && !blocked && time.Now().Before(deadline); n++ {
+		x.SendAsync(junk)
+		for w := 0; w < 20 && !blocked; w++ {
+			time.Sleep(200 * time.Microsecond)
+			blocked = x.ServerWriteBlocked()
+		}
+	}
+	if blocked {
+		r.v.Class("server-writer-flow-controlled")
+		r.inside = true
+	}
+	var sent []*gen.Op
+	for b := 0; b < f.NBatches && r.next < len(r.ops); b++ {
+		req := &spb.ModifyRequest{}
+		for n := 0; n < r.c.Batch && r.next < len(r.ops); n++ {
+			o := *r.ops[r.next]
+			r.next++
+			o.Elec = &id
+			sent = append(sent, &o)
+			req.Operation = append(req.Operation, o.Proto())
+		}
+		x.SendAsync(req)
+	}
+	if f.Mode == "flow-control-connclose" {
+		x.Fail(status.Error(codes.Unavailable, "connection closed"))
+	} else {
+		x.Cancel()
+	}
+	if _, _, hg := x.WaitEnd(); hg != nil {
+		l2.HangFinding(r.v, "C10", hg)
+		return false
+	}
+	if got := r.s.S.VerifSessions(); got != 0 {
+		r.fail("session-footprint", "%s: the server still keeps state for %d sessions after the client went away", when, got)
+	}
+	return r.observe(when, sent, 0)
+}
+
 func (r *runner) getFault(fi int, f Fault) bool {
 	when := fmt.Sprintf("fault %d (%+v)", fi, f)
 	total := len(r.belief.Ent)
@@ -364,7 +447,9 @@ func (r *runner) getFault(fi int, f Fault) bool {
 	}
 	if cut < total {
 		r.inside = true
-		if err == nil {
+		// over a real transport the remaining responses may all fit into the transport's
+		// buffers before the cancellation arrives: OK is then a legitimate status
+		if err == nil && !r.c.Net {
 			r.fail("abandoned-get-ok", "%s: the client went away after %d of %d responses but Get returned OK", when, len(rs), total)
 		}
 	}
@@ -374,6 +459,11 @@ func (r *runner) getFault(fi int, f Fault) bool {
 func runCase(c Case) *ev.Verdict {
 	v := &ev.Verdict{}
 	r := &runner{c: c, v: v, s: drive.NewSrv(false, hgen.NIs[1:]), belief: model.New("DEFAULT", hgen.NIs[1:], false)}
+	if c.Net {
+		r.s.UseNet()
+		defer r.s.Shutdown()
+		v.Class("real-transport")
+	}
 	for _, st := range c.H.Steps {
 		if st.Op != nil {
 			r.ops = append(r.ops, st.Op)
@@ -388,6 +478,11 @@ func runCase(c Case) *ev.Verdict {
 		ok := false
 		if f.Kind == "get" {
 			ok = r.getFault(fi, f)
+		} else if strings.HasPrefix(f.Mode, "flow-control-") {
+			if !c.Net {
+				panic("flow-control faults need the real transport")
+			}
+			ok = r.floodFault(fi, f)
 		} else {
 			ok = r.modifyFault(fi, f)
 		}
@@ -516,6 +611,53 @@ func TestCampaign(t *testing.T) {
 			for _, c := range cases {
 				v := runCase(c)
 				v.Class("large-script")
+				col.Check(rt, ev.JSON(c), v)
+			}
+		})
+	})
+	t.Run("real-transport", func(t *testing.T) {
+		// the same scripts with the server behind a real grpc.Server (bufconn): CloseSend,
+		// context cancellation, connection teardown, an abandoned server stream, a client that
+		// does not read, and HTTP/2 flow control stalling the server's writer
+		rapid.Check(t, func(rt *rapid.T) {
+			h := drawHistory(rt)
+			batch := rapid.IntRange(1, 5).Draw(rt, "batch")
+			nops := 0
+			for _, st := range h.Steps {
+				if st.Op != nil {
+					nops++
+				}
+			}
+			nb := (nops + batch - 1) / batch
+			if nb > 3 {
+				nb = 3
+			}
+			nmsgs := 2 + nb
+			var cases []Case
+			for _, mode := range modes[:3] {
+				for _, read := range []bool{false, true} {
+					cut := rapid.IntRange(0, nmsgs).Draw(rt, "cut")
+					cases = append(cases, Case{Net: true, H: h, Batch: batch, Faults: []Fault{{Kind: "modify", NBatches: nb, Cut: cut, Read: read, Mode: mode}}})
+				}
+			}
+			cases = append(cases, Case{Net: true, H: h, Batch: batch, Faults: []Fault{{Kind: "modify", NBatches: nb, Cut: nmsgs, Mode: "cancel-unread"}}})
+			load := Fault{Kind: "modify", NBatches: 99, Cut: 99, Read: true, Mode: "halfclose"}
+			for i := 0; i < 2; i++ {
+				g := rapid.IntRange(0, nops).Draw(rt, "getcut")
+				cases = append(cases, Case{Net: true, H: h, Batch: batch, Faults: []Fault{load, {Kind: "get", GetCut: g}}})
+			}
+			if rapid.IntRange(0, 3).Draw(rt, "flood?") == 0 {
+				mode := []string{"flow-control-cancel", "flow-control-connclose"}[rapid.IntRange(0, 1).Draw(rt, "floodmode")]
+				pre := rapid.IntRange(0, 2).Draw(rt, "preload-batches")
+				fs := []Fault{}
+				if pre > 0 {
+					fs = append(fs, Fault{Kind: "modify", NBatches: pre, Cut: 2 + pre, Read: true, Mode: "halfclose"})
+				}
+				fs = append(fs, Fault{Kind: "modify", NBatches: rapid.IntRange(0, 2).Draw(rt, "floodbatches"), Mode: mode})
+				cases = append(cases, Case{Net: true, Flood: rapid.IntRange(256, 1024).Draw(rt, "flood"), H: h, Batch: batch, Faults: fs})
+			}
+			for _, c := range cases {
+				v := runCase(c)
 				col.Check(rt, ev.JSON(c), v)
 			}
 		})
